@@ -42,6 +42,22 @@ add("C16", "Lean 4 proof over all chunkings of stdin (buffered-reader refinement
     "C16_console / C16_console_chunking: for every way the input bytes are delivered, the console transcript equals the stand-alone answers of the complete lines up to :quit; C16_console_fresh_reader_fails refutes the pre-fix behaviour. C16_reader_outside_loop and C16_env_read_only are `decide`d on facts re-extracted from the Go source each run; C16_history follows. Against the real code: sequences (1..24) of valid/invalid/repeated queries on one loaded graph, each answer compared with a freshly scanned graph's; console sessions with piped and incrementally written stdin compared line by line with stand-alone runs.",
     COMMON_NOTE, "DESIGN.md §6 C16")
 
+add("C03", "Lean 4 proof over abstract syntax trees (mutual induction: the traversal emits every node's entities exactly once; statement identity format injective via decimal-rendering lemmas; dedup lemma) with kinds/identity formats regenerated from the Go source + exact correspondence of the model with buildGraphFromAST (SHA-256 of the model's pre-image = real ID) + independent census oracle",
+    "C03_visit, C03_emitted_kind, C03_stmt_formats (decide on the regenerated table), C03_stmt_ids_injective, C03_dedup_id, C03_ids_mention_file, C03_not_position_complete and the refutation C03_full_fails_for_variables. The model is tied exactly: on the real tree-sitter tree of every test file the model's entities, identities and call links equal the real graph's. Oracles: generator ground truth (unique mode: one entity per construct, nothing else), an independent census of the tree for android/mutated files, project level (nested dirs, mixed extensions). Same-file identity collisions are recorded findings (one signature per kind).",
+    COMMON_NOTE + " Identity = SHA-256 of the pre-image (collision resistance assumed).", "DESIGN.md §6 C03")
+add("C04", "Lean 4 proof on byte lists (snippet is the file text at its offset; the i-th snippet line lies on file line LineNumber+i, for any bytes) + regenerated facts about every Node literal decided in Lean + oracle over every entity of generated / android / mutated / random-byte / invalid-UTF-8 / CRLF inputs",
+    "C04_fields (decide: LineNumber = Row+1, CodeSnippet = node.Content, File = file for every literal of the visitor), C04_entity_location, C04_snippet_in_file, C04_line_of_offset, C04_ith_line. tree-sitter's contract (start row = newlines before start byte, column, ranges) is an explicit assumption re-validated on every dumped tree. Oracle: the snippet bytes must occur in the scanned file starting on the reported line, for every entity; text mode's numbered lines are compared with the file.",
+    COMMON_NOTE, "DESIGN.md §6 C04")
+add("C07", "Lean 4 proof that the merge is independent of arrival order (bindings by identity and multiset of links, under identity disjointness across files) + regenerated pool facts decided in Lean + forced-arrival-order differential through build-tagged hooks",
+    "C07_merge_nodes, C07_merge_edges hold for all lists of per-file graphs and all permutations; the disjointness hypothesis follows from file-scoped identity formats (C07_ids_file_scoped, regenerated) and is re-validated on every project. Real Initialize is run with forced arrival orders (all permutations up to 4 files in thorough), the observed merge order is checked to be the forced one, and the merged graph must equal the union of the per-file graphs and be identical across orders, GOMAXPROCS values, file counts around the pool size and repetitions. The pool's termination for all schedules is NOT proved (only its channel capacities / program order are pinned as regenerated facts: C07_pool_facts); thorough adds the race detector.",
+    COMMON_NOTE + " Go scheduler, memory model and cgo parser thread-safety are outside the model.", "DESIGN.md §6 C07")
+add("C08", "Lean 4 proof of isolation on the merge model (for every set and order of other per-file graphs, and with faulty files dropped) + context differential with real permission faults as a non-root user",
+    "C08_isolation, C08_same_as_alone, C08_faults, disjoint_sublist. Real code: file F scanned alone vs inside contexts (copies, same name elsewhere, shared fragments, empty/malformed/binary files, non-.java files, dangling and live symlinks, unreadable file and unreadable directory as uid 65534); entities and call links whose file is F must be identical.",
+    COMMON_NOTE + " filepath.Walk / os.ReadFile are modelled-not-verified.", "DESIGN.md §6 C08")
+add("C09", "Lean 4 proof for every abstract tree (mutual induction): no panic under the node-shape hypothesis, quadratic bound on the work of the declaration x invocation pass; regenerated facts on where that pass runs; exact op-count correspondence through a build-tagged counter hook; mutation/fuzz oracle under recover with time limits",
+    "C09_total_partial (all trees satisfying allShapeOk, all byte strings), C09_total_full_fails (the unconditional statement is false for the model: the hypothesis is necessary), C09_cost (passOps <= (K*size)^2), C09_pass_placement (decide on regenerated facts). allShapeOk is re-validated on every real tree; the hook counter of the real run equals the model's passOps on the same tree. Oracle: token mutations, random bytes, truncations, deep nesting, invalid UTF-8 through the real visitor; scaling family at n/3n/9n (op counts and growth ratio); thorough: go native fuzzing.",
+    COMMON_NOTE + " Wall-clock time, Go stack limits, tree-sitter's termination and memory are not carried by the model.", "DESIGN.md §6 C09")
+
 def main():
     hooks_commits = subprocess.run(["git", "-C", "/repo", "log", "--format=%H %s", "--grep=^verif:"], capture_output=True, text=True).stdout.strip().splitlines()
     m = dict(
